@@ -158,19 +158,25 @@ Definition para_attr (name : lit) (d : attr_decl) : entry :=
                 (GAttr (pth "a:pPr") (ad_attr d) (ad_codec d) (ad_kind d)))
      (attr_prog pre_id pPr (pth "a:pPr") d).
 
-(** spacing: a:lnSpc / a:spcBef / a:spcAft hold a:spcPts (Length) or a:spcPct (lines) *)
+(** spacing: a:lnSpc / a:spcBef / a:spcAft hold a:spcPts (Length) or a:spcPct (lines).  The new
+    element is completed while still loose (a refused value changes nothing), then it replaces
+    the current one. *)
 Definition spc_set_pts (c : lit) : prog :=
-  Seq (SAdd (pth (sub "a:pPr" c)) [])
+  Seq (SCheck (ad_codec A_CT_TextSpacingPoint__val) (ad_kind A_CT_TextSpacingPoint__val))
+  (Seq (SRemove (pth (sub "a:pPr" c)))
+  (Seq (SAdd (pth (sub "a:pPr" c)) [])
    (Seq (SRemove (pth (sub (sub "a:pPr" c) "a:spcPct")))
     (Seq (SEnsure (pth (sub (sub "a:pPr" c) "a:spcPts")) [])
      (Seq (SSetAttr (pth (sub (sub "a:pPr" c) "a:spcPts")) (ad_attr A_CT_TextSpacingPoint__val)
-                    (ad_codec A_CT_TextSpacingPoint__val) (ad_kind A_CT_TextSpacingPoint__val)) Done))).
+                    (ad_codec A_CT_TextSpacingPoint__val) (ad_kind A_CT_TextSpacingPoint__val)) Done))))).
 Definition spc_set_pct (c : lit) : prog :=
-  Seq (SAdd (pth (sub "a:pPr" c)) [])
+  Seq (SCheck (ad_codec A_CT_TextSpacingPercent__val) (ad_kind A_CT_TextSpacingPercent__val))
+  (Seq (SRemove (pth (sub "a:pPr" c)))
+  (Seq (SAdd (pth (sub "a:pPr" c)) [])
    (Seq (SRemove (pth (sub (sub "a:pPr" c) "a:spcPts")))
     (Seq (SEnsure (pth (sub (sub "a:pPr" c) "a:spcPct")) [])
      (Seq (SSetAttr (pth (sub (sub "a:pPr" c) "a:spcPct")) (ad_attr A_CT_TextSpacingPercent__val)
-                    (ad_codec A_CT_TextSpacingPercent__val) (ad_kind A_CT_TextSpacingPercent__val)) Done))).
+                    (ad_codec A_CT_TextSpacingPercent__val) (ad_kind A_CT_TextSpacingPercent__val)) Done))))).
 Definition spc_pts_get (c : lit) : gexp :=
   GAttr (pth (sub (sub "a:pPr" c) "a:spcPts")) (ad_attr A_CT_TextSpacingPoint__val)
         (ad_codec A_CT_TextSpacingPoint__val) (ad_kind A_CT_TextSpacingPoint__val).
@@ -179,8 +185,9 @@ Definition spc_pct_get (c : lit) : gexp :=
         (ad_codec A_CT_TextSpacingPercent__val) (ad_kind A_CT_TextSpacingPercent__val).
 
 Definition line_spacing_set : prog :=
-  Seq (SEnsure (pth "a:pPr") []) (Seq (SRemove (pth "a:pPr/a:lnSpc"))
-    (If CNone Done (If CIsLength (spc_set_pts "a:lnSpc") (spc_set_pct "a:lnSpc")))).
+  Seq (SEnsure (pth "a:pPr") [])
+    (If CNone (Seq (SRemove (pth "a:pPr/a:lnSpc")) Done)
+        (If CIsLength (spc_set_pts "a:lnSpc") (spc_set_pct "a:lnSpc"))).
 Definition line_spacing_get : gexp :=
   GIfAbsent (pth "a:pPr") (GConst ok_none)
     (GIfAbsent (pth "a:pPr/a:lnSpc") (GConst ok_none)
@@ -188,8 +195,8 @@ Definition line_spacing_get : gexp :=
           (GIfAbsent (pth "a:pPr/a:lnSpc/a:spcPct") (GConst no_attr) (spc_pct_get "a:lnSpc"))
           (spc_pts_get "a:lnSpc"))).
 Definition space_set (c : lit) : prog :=
-  Seq (SEnsure (pth "a:pPr") []) (Seq (SRemove (pth (sub "a:pPr" c)))
-    (If CNone Done (spc_set_pts c))).
+  Seq (SEnsure (pth "a:pPr") [])
+    (If CNone (Seq (SRemove (pth (sub "a:pPr" c))) Done) (spc_set_pts c)).
 Definition space_get (c : lit) : gexp :=
   GIfAbsent (pth "a:pPr") (GConst ok_none)
     (GIfAbsent (pth (sub "a:pPr" c)) (GConst ok_none)
@@ -239,9 +246,12 @@ Definition pre_language (v : aval) : res aval :=
 Definition post_language (v : pyval) : res pyval :=
   match v with PNone => Ok (PInt 0) | _ => Ok v end.
 
+(** _add_x(attr=v): the attribute is assigned on the loose element, which is inserted only then *)
+Definition add_val (c : lit) (d : attr_decl) : prog :=
+  Seq (SCheck (ad_codec d) (ad_kind d)) (Seq (SAdd (pth c) []) (Seq (SSetAttr (pth c) (ad_attr d) (ad_codec d) (ad_kind d)) Done)).
 Definition font_name_set : prog :=
   If CNone (Seq (SRemove (pth "a:latin")) Done)
-     (Seq (SEnsure (pth "a:latin") [])
+     (If (CAbsent (pth "a:latin")) (add_val "a:latin" A_CT_TextFont__typeface)
         (Seq (SSetAttr (pth "a:latin") (ad_attr A_CT_TextFont__typeface) (ad_codec A_CT_TextFont__typeface)
                        (ad_kind A_CT_TextFont__typeface)) Done)).
 Definition font_name_get : gexp :=
@@ -371,9 +381,10 @@ Definition rgb_set : prog :=
         (remove_all colour_tags (Seq (SAdd (pth "a:srgbClr") []) (set_val "a:srgbClr" A_CT_SRgbColor__val)))
         (set_val "a:srgbClr" A_CT_SRgbColor__val)).
 Definition theme_set : prog :=
-  If (CAbsent (pth "a:schemeClr"))
+  Seq (SCheck (ad_codec A_CT_SchemeColor__val) AReq)          (* MSO_THEME_COLOR.to_xml(value) first *)
+  (If (CAbsent (pth "a:schemeClr"))
      (remove_all colour_tags (Seq (SAdd (pth "a:schemeClr") []) (set_val "a:schemeClr" A_CT_SchemeColor__val)))
-     (set_val "a:schemeClr" A_CT_SchemeColor__val).
+     (set_val "a:schemeClr" A_CT_SchemeColor__val)).
 (** the colour object is fixed by which choice child exists; only srgbClr, schemeClr and
     no colour are modelled (other colour kinds give the base-class answers) *)
 Definition rgb_get : gexp :=
@@ -557,8 +568,6 @@ Definition axis_entries : list entry :=
 (** crosses / crosses_at live on the CROSSING axis element (anchor) *)
 Definition custom_cross : Z := match find (fun r => match snd r with [] => true | _ => false end) E_XL_AXIS_CROSSES with
                                | Some r => fst r | None => 0%Z end.
-Definition add_val (c : lit) (d : attr_decl) : prog :=
-  Seq (SCheck (ad_codec d) (ad_kind d)) (Seq (SAdd (pth c) []) (Seq (SSetAttr (pth c) (ad_attr d) (ad_codec d) (ad_kind d)) Done)).
 Definition crosses_set : prog :=
   If (CAnd (CEq (PInt custom_cross)) (CNot (CAbsent (pth "c:crossesAt")))) Done
      (Seq (SRemove (pth "c:crosses")) (Seq (SRemove (pth "c:crossesAt"))
@@ -574,17 +583,30 @@ Definition cross_entries : list entry :=
   [ mk "ValueAxis" "crosses" "cross" (child_gexp post_id [] (pth "c:crosses") (Ok (PInt custom_cross)) A_CT_Crosses__val) crosses_set;
     mk "ValueAxis" "crosses_at" "cross" (child_gexp post_id [] (pth "c:crossesAt") ok_none A_CT_Double__val) crosses_at_set ].
 
-(** number_format: a:numFmt get_or_add, formatCode, then sourceLinked = False *)
+(** number_format: a new c:numFmt is inserted only with its formatCode; then sourceLinked = False.
+    number_format_is_linked: a new c:numFmt gets formatCode General and the flag *)
 Definition general : pyval := PStr (s2l "General").
+Definition set_linked : step :=
+  SSetAttr (pth "c:numFmt") (ad_attr A_CT_NumFmt__sourceLinked) (ad_codec A_CT_NumFmt__sourceLinked) (ad_kind A_CT_NumFmt__sourceLinked).
+Definition set_format : step :=
+  SSetAttr (pth "c:numFmt") (ad_attr A_CT_NumFmt__formatCode) (ad_codec A_CT_NumFmt__formatCode) (ad_kind A_CT_NumFmt__formatCode).
 Definition numfmt_set : prog :=
-  Seq (SEnsure (pth "c:numFmt") [])
-    (Seq (SSetAttr (pth "c:numFmt") (ad_attr A_CT_NumFmt__formatCode) (ad_codec A_CT_NumFmt__formatCode) (ad_kind A_CT_NumFmt__formatCode))
-       (Seq (SWith (fun _ => Ok (plain (PBool false)))
-               (SSetAttr (pth "c:numFmt") (ad_attr A_CT_NumFmt__sourceLinked) (ad_codec A_CT_NumFmt__sourceLinked) (ad_kind A_CT_NumFmt__sourceLinked))) Done)).
+  let unlink := Seq (SWith (fun _ => Ok (plain (PBool false))) set_linked) Done in
+  If (CAbsent (pth "c:numFmt"))
+     (Seq (SCheck (ad_codec A_CT_NumFmt__formatCode) (ad_kind A_CT_NumFmt__formatCode))
+        (Seq (SAdd (pth "c:numFmt") []) (Seq set_format unlink)))
+     (Seq set_format unlink).
+Definition linked_set : prog :=
+  If (CAbsent (pth "c:numFmt"))
+     (Seq (SCheck (ad_codec A_CT_NumFmt__sourceLinked) (ad_kind A_CT_NumFmt__sourceLinked))
+        (Seq (SAdd (pth "c:numFmt") [])
+           (Seq (SPutAttr (pth "c:numFmt") (ad_attr A_CT_NumFmt__formatCode) (s2l "General")) (Seq set_linked Done))))
+     (Seq set_linked Done).
 Definition numfmt_entries (cls : lit) (absent_linked : bool) : list entry :=
   [ mk cls "number_format" "" (child_gexp post_id [] (pth "c:numFmt") (Ok general) A_CT_NumFmt__formatCode) numfmt_set;
-    ensure_val cls "number_format_is_linked" "" pre_id (post_none_to (PBool true)) [] "c:numFmt" (Ok (PBool absent_linked))
-               A_CT_NumFmt__sourceLinked A_CT_NumFmt__sourceLinked ].
+    mk cls "number_format_is_linked" ""
+       (child_gexp (post_none_to (PBool true)) [] (pth "c:numFmt") (Ok (PBool absent_linked)) A_CT_NumFmt__sourceLinked)
+       linked_set ].
 
 Definition offset_set : prog :=
   Seq (SRemove (pth "c:lblOffset"))
@@ -609,7 +631,11 @@ Definition show_flag (name c : lit) : entry :=
 Definition dlbls_entries : list entry :=
   numfmt_entries "DataLabels" true ++
   [ mk "DataLabels" "position" "" (child_gexp post_id [] (pth "c:dLblPos") ok_none A_CT_DLblPos__val)
-       (ensure_or_remove_prog pre_id [] (pth "c:dLblPos") [] CNone A_CT_DLblPos__val);
+       (* XL_DATA_LABEL_POSITION.to_xml(value) is evaluated before c:dLblPos is added *)
+       (If CNone (Seq (SRemove (pth "c:dLblPos")) Done)
+           (Seq (SCheck (ad_codec A_CT_DLblPos__val) AReq)
+              (Seq (SEnsure (pth "c:dLblPos") [])
+                 (Seq (SSetAttr (pth "c:dLblPos") (ad_attr A_CT_DLblPos__val) (ad_codec A_CT_DLblPos__val) (ad_kind A_CT_DLblPos__val)) Done))));
     show_flag "show_category_name" "c:showCatName"; show_flag "show_legend_key" "c:showLegendKey";
     show_flag "show_percentage" "c:showPercent"; show_flag "show_series_name" "c:showSerName";
     show_flag "show_value" "c:showVal" ].
@@ -642,7 +668,10 @@ Definition series_entries : list entry :=
     ensure_val "BarSeries" "invert_if_negative" "" pre_id post_id [] "c:invertIfNegative" (Ok (PBool true))
                (explicit_decl A_CT_Boolean_Explicit___val) A_CT_Boolean_Explicit___val;
     mk "Marker" "size" "" (child_gexp post_id marker_ch (pth "c:marker/c:size") ok_none A_CT_MarkerSize__val) (marker_set "c:marker/c:size" A_CT_MarkerSize__val);
-    mk "Marker" "style" "" (child_gexp post_id marker_ch (pth "c:marker/c:symbol") ok_none A_CT_MarkerStyle__val) (marker_set "c:marker/c:symbol" A_CT_MarkerStyle__val) ].
+    (* style: XL_MARKER_STYLE.to_xml(value) is evaluated first unless value is None *)
+    mk "Marker" "style" "" (child_gexp post_id marker_ch (pth "c:marker/c:symbol") ok_none A_CT_MarkerStyle__val)
+       (If CNone (marker_set "c:marker/c:symbol" A_CT_MarkerStyle__val)
+           (Seq (SCheck (ad_codec A_CT_MarkerStyle__val) AReq) (marker_set "c:marker/c:symbol" A_CT_MarkerStyle__val))) ].
 
 (** ** adjustments: Adjustment.effective_value over the in-memory pair (actual, def_val);
     pseudo attributes ~adj@actual (absent = None) and ~adj@def *)
@@ -735,8 +764,22 @@ Definition nonatomic_witness (e : entry) : option (st * aval) :=
        (flat_map (fun s => map (fun v => (s, v)) bad_values) (probe_states e)).
 Definition nonatomic_labels : list str :=
   map entry_label (filter (fun e => match nonatomic_witness e with Some _ => true | None => false end) catalogue).
-(** the same by Class.name (the signature used for known findings) *)
+(** Class.name: the signature used for known findings *)
 Definition entry_cn (e : entry) : str := e_cls e ++ [46%N] ++ e_name e.
-Definition unknown_nonatomic : list str :=
-  filter (fun l => negb (mem_str l known_nonatomic))
-         (map entry_cn (filter (fun e => match nonatomic_witness e with Some _ => true | None => false end) catalogue)).
+
+(** the part of this that the property's statement forbids: after the refused assignment the
+    property's own getter raises although it did not before *)
+Definition is_ok (r : res pyval) : bool := match r with Ok _ => true | Err _ => false end.
+Definition breaks_getter_on (e : entry) (s : st) (v : aval) : bool :=
+  match run (e_set e) v s with
+  | (s', Err _) => is_ok (eval (e_get e) s) && negb (is_ok (eval (e_get e) s'))
+  | _ => false
+  end.
+Definition breaking_witness (e : entry) : option (st * aval) :=
+  find (fun sv => breaks_getter_on e (fst sv) (snd sv))
+       (flat_map (fun s => map (fun v => (s, v)) bad_values) (probe_states e)).
+Definition breaking_labels : list str :=
+  map entry_label (filter (fun e => match breaking_witness e with Some _ => true | None => false end) catalogue).
+Definition breaking_cns : list str :=
+  map entry_cn (filter (fun e => match breaking_witness e with Some _ => true | None => false end) catalogue).
+Definition unknown_breaking : list str := filter (fun l => negb (mem_str l known_breaking)) breaking_cns.
